@@ -8,11 +8,15 @@ import numpy as np
 from scipy.special import ndtri
 
 
+BLOB_MODES = {"blobs": 1, "blobs2": 2, "blobs_auto": 1, "blobs_str": 1}
+
+
 class Target:
     """Product Gaussian likelihood in x, optional zero-likelihood half-space/box, optional constant shift.
 
     pt kinds per coordinate: 'affine' x = a + b*u ; 'exp' x = exp(a + b*u) ; 'ppf' x = a + b*ndtri(clip(u)).
-    mode: 'vector' (vectorize=True), 'scalar', 'blobs' (scalar, returns (logl, blob)).
+    mode: 'vector' (vectorize=True), 'scalar', 'blobs' (scalar, returns (logl, blob)), 'blobs2' (two blobs), 'blobs_auto' (one float
+    blob, blobs_dtype left to the sampler), 'blobs_str' (one string blob of varying length, blobs_dtype left to the sampler).
     """
 
     def __init__(self, d, kinds, a, b, centre, width, mode="vector", zero_below=None, zero_coord=0, shift=0.0,
@@ -78,10 +82,25 @@ class Target:
         return acc
 
     def blob_vec(self, x):
-        """all blob components of the current mode (one for 'blobs', two for 'blobs2')"""
+        """all blob components of the current mode (one for 'blobs' / 'blobs_auto' / 'blobs_str', two for 'blobs2')"""
         if self.mode == "blobs2":
             return [self.blob_row(x), 2.0 * float(x[self.d - 1]) - 1.0]
+        if self.mode == "blobs_str":
+            return [repr(float(x[0]))]  # strings of different lengths (3..24 characters): truncation would show
         return [self.blob_row(x)]
+
+    def blob_match(self, x, stored):
+        """is `stored` (one row of a blobs array, any dtype) exactly what the likelihood returns as blob(s) at x?"""
+        exp = self.blob_vec(x)
+        got = np.asarray(stored, dtype=object).ravel().tolist()
+        return len(got) == len(exp) and all(bool(g == e) for g, e in zip(got, exp))
+
+    def loglike_blobs_str(self, x):
+        self.n_calls += 1
+        self.n_points += 1
+        v = self.ll_row(x)
+        self.n_finite += int(math.isfinite(v))
+        return v, repr(float(x[0]))
 
     def loglike_blobs2(self, x):
         self.n_calls += 1
@@ -117,7 +136,7 @@ class Target:
     @property
     def loglike(self):
         return {"vector": self.loglike_vector, "scalar": self.loglike_scalar, "blobs": self.loglike_blobs,
-                "blobs2": self.loglike_blobs2}[self.mode]
+                "blobs2": self.loglike_blobs2, "blobs_auto": self.loglike_blobs, "blobs_str": self.loglike_blobs_str}[self.mode]
 
     def sampler_kwargs(self):
         kw = {"prior_transform": self.pt, "log_likelihood": self.loglike, "n_dim": self.d}
@@ -125,6 +144,7 @@ class Target:
             kw["vectorize"] = True
         if self.mode in ("blobs", "blobs2"):
             kw["blobs_dtype"] = "float"
+        # 'blobs_auto' (float blob) and 'blobs_str' (string blob) leave blobs_dtype to the sampler's own detection
         return kw
 
     def spec(self):
